@@ -19,7 +19,8 @@ CONSTANTS N, Policy, Bits     \* Bits: TRUE = all hyphen subsets of the skeleton
 VARIABLES c, st
 vars == <<c, st>>
 
-TX == << <<32>>, <<32, 97, 32>>, <<10>>, <<97>>, <<97, 32>>, <<32, 97>> >>
+\* (the last two end / begin with a character whose final byte, 0xA0, is not whitespace although U+00A0 is)
+TX == << <<32>>, <<32, 97, 32>>, <<10>>, <<97>>, <<97, 32>>, <<32, 97>>, <<97, 195, 160>>, <<195, 160, 32>> >>
 T(s) == [t |-> "text", s |-> s]
 Var(n) == [t |-> "var", name |-> n]
 Lit(v) == [t |-> "lit", v |-> v]
